@@ -126,20 +126,31 @@ def main():
                 R.violation({'kind': 'conversion between the URI/IRI kinds is not exact', 'input': b.decode('utf-8', 'replace'), 'problems': pr[:5], 'implementation': io[:1500],
                              'replay': "printf '%s\\n' | %s" % (line.replace('\t', '\\t'), harness)}, no_input=False)
     # ---- both families give identical results on ASCII input
-    xlines = []
+    ul = []; il = []
+    def both(fmt_u, fmt_i=None):
+        ul.append(fmt_u); il.append(fmt_i if fmt_i is not None else fmt_u.replace('\turi', '\tiri', 1))
     gu = Gen(random.Random(rnd.random()), 'uri')
+    SEG = ['a', 'b', 'c', '', '.', '..', '%61', 'b:c', 'zz']
     for _ in range(4000 if thorough else 800):
         p = gu.parts(); b = Gen.compose(p)
         q = cmpgen.equal_variant(gu, p) if gu.r.random() < 0.4 else (cmpgen.mutate_one(gu, p) or gu.parts())
-        xlines.append(('ref\t%sref\t' + hexs(b), None))
-        xlines.append(('eq\t%sref\t' + hexs(b) + '\t' + hexs(Gen.compose(q)), None))
+        both('ref\turiref\t' + hexs(b))
+        both('eq\turiref\t' + hexs(b) + '\t' + hexs(Gen.compose(q)))
+        # unrelated paths of different lengths under the same scheme/authority: the orderings must agree too
+        p1 = '/' + '/'.join(gu.pick(SEG) for _ in range(gu.pick([1, 2, 3, 4]))); p2 = '/' + '/'.join(gu.pick(SEG) for _ in range(gu.pick([1, 2, 3, 4])))
+        both('eq\turiref\t' + hexs('s://h' + p1) + '\t' + hexs('s://h' + p2))
+        both('eq\tupath\t' + hexs(p1) + '\t' + hexs(p2), 'eq\tipath\t' + hexs(p1) + '\t' + hexs(p2))
+        both('eq\tusegment\t' + hexs(gu.pick(SEG)) + '\t' + hexs(gu.pick(SEG)), None)
+        il[-1] = ul[-1].replace('usegment', 'isegment')
+        a1 = gu.authority(); a2 = gu.authority()
+        both('eq\tuauthority\t' + hexs(a1) + '\t' + hexs(a2), 'eq\tiauthority\t' + hexs(a1) + '\t' + hexs(a2))
         base = gu.parts(scheme=True)
-        xlines.append(('resolve\t%s\t' + hexs(Gen.compose(base)) + '\t' + hexs(b), None))
+        both('resolve\turi\t' + hexs(Gen.compose(base)) + '\t' + hexs(b))
         ops = [c04.rand_op(gu, 'uriref', False) for _ in range(gu.pick([1, 2, 3]))]
-        xlines.append(('ops\t%sref\t' + hexs(b) + '\t' + '\t'.join(ops), None))
-        xlines.append(('norm\t%s\t' + hexs(p['path']), None))
-        xlines.append(('relto\t%s\t' + hexs(Gen.compose(base)) + '\t' + hexs(Gen.compose(gu.parts(scheme=True))), None))
-    ul = [t % 'uri' for t, _ in xlines]; il = [t % 'iri' for t, _ in xlines]
+        both('ops\turiref\t' + hexs(b) + '\t' + '\t'.join(ops))
+        both('norm\turi\t' + hexs(p['path']))
+        both('relto\turi\t' + hexs(Gen.compose(base)) + '\t' + hexs(Gen.compose(gu.parts(scheme=True))))
+        both('suffix\turi\t' + hexs('s://h' + p1 + '/x/y') + '\t' + hexs('s://h' + p1))
     uo = run_lines(harness, ul); io_ = run_lines(harness, il)
     for l, a, b in zip(ul, uo, io_):
         classes.add(('xfam', l.split('\t')[0]))
